@@ -217,3 +217,29 @@ Proof.
   - unfold is_plain, is_ident_char. now rewrite Hc.
   - rewrite forallb_forall in *. intros x Hx. unfold is_plain. now rewrite (Hk x Hx).
 Qed.
+
+(* a literal between plain double quotes (the way _get_rp_env writes ids and
+   addresses: no escaping at all) is read back unchanged when it has no
+   double quote, backslash, $, backtick or NUL *)
+Definition literal_byte (c : Z) : bool := safe_byte c && negb (c =? c_dq) && negb (c =? c_bs).
+Definition literal (v : bytes) : bool := match v with [] => false | _ => forallb literal_byte v end.
+
+Lemma literal_escape v : forallb literal_byte v = true -> sh_escape v = v /\ safe v = true.
+Proof.
+  induction v as [|c v IH]; intro H; [split; reflexivity|].
+  simpl in H. apply andb_true_iff in H as [Hc Hv]. destruct (IH Hv) as [E S].
+  unfold literal_byte in Hc. apply andb_true_iff in Hc as [Hc Hbs]. apply andb_true_iff in Hc as [Hs Hdq].
+  apply negb_true_iff in Hbs, Hdq. split.
+  - rewrite sh_escape_cons, E. unfold esc1. now rewrite Hbs, Hdq.
+  - simpl. now rewrite Hs, S.
+Qed.
+
+Theorem literal_roundtrip e v : literal v = true -> bash_word e (c_dq :: v ++ [c_dq]) = Some v.
+Proof.
+  intro H. destruct v as [|c v]; [discriminate|]. unfold literal in H.
+  destruct (literal_escape (c :: v) H) as [E S].
+  rewrite <- (quoted_word_roundtrip e (c :: v) S). unfold sh_quote. now rewrite E.
+Qed.
+
+Lemma argv_dollar_refuted : exists a, bash_words [] (get_exec (B "x") [a]) <> Some [B "x"; a].
+Proof. exists (B "$HOME"). vm_compute. discriminate. Qed.
